@@ -75,7 +75,7 @@ TMsg ==
 TEof == /\ e.op = "eof" /\ Eof /\ Adv
 
 TExit ==
-    /\ e.op = "exit" /\ Exit
+    /\ e.op = "exit" /\ e.how \in Leaves /\ Exit(e.how)
     /\ LET z == LZ(e.zone) IN
        /\ Check(t, l, "ErrorAfterCommit_surplus",
                 ~(c.err /\ c.why = "surplus" /\ z # script.zone0 /\ z = c.pending))
